@@ -59,7 +59,7 @@ function instrument(src, opts) {
       return '{ return $$.intrinsic(' + q(m[1]) + ', [' + args + '], ' +
         '{I64: typeof $Int64 !== "undefined" ? $Int64 : null, U64: typeof $Uint64 !== "undefined" ? $Uint64 : null, ' +
         'C64: typeof $Complex64 !== "undefined" ? $Complex64 : null, C128: typeof $Complex128 !== "undefined" ? $Complex128 : null, ' +
-        'env: typeof $curGoroutine !== "undefined" ? {cur: () => $curGoroutine, block: $block, schedule: $schedule} : null}); }';
+        'env: typeof $curGoroutine !== "undefined" ? {cur: () => $curGoroutine, block: $block, schedule: $schedule, setTimeout: $setTimeout} : null}); }';
     }
     if (n.body.type === 'BlockStatement') return block(n.body);
     return '{ return ' + e(n.body) + '; }';
